@@ -1,5 +1,6 @@
 """C17 - native-Python codec round trip and Python-value encoding equivalence."""
 from pyasn1 import error
+from pyasn1.type import base
 from pyasn1.codec.ber import encoder as ber_encoder
 from pyasn1.codec.cer import encoder as cer_encoder
 from pyasn1.codec.der import encoder as der_encoder
@@ -16,10 +17,27 @@ BOUNDS = ("catalogue U_Q/U_T without ANY and REAL; values as C01 (BIT STRING len
 OUTSIDE = "REAL (native form is a Python float: rounding is outside the engine's sound reach); ANY on the bare-value path"
 
 
-def native_rt(sid, **slots):
+def _all_optional_record(t):
+    from vfw.findings_lib import _walk
+
+    return any(n.kind in ("SEQ", "SET") and n is not t and n.comps and all(c[2] != "req" for c in n.comps) for n in _walk(t))
+
+
+def native_rt(sid, pre=0, **slots):
     e = by_id(sid)
     av = e.mk(**slots)
     v = build(e.t, av)
+    if pre and isinstance(v, base.ConstructedAsn1Type):
+        # the value has been looked at before (absent OPTIONAL scalars get valueless placeholders): the conversion must not care.
+        # (for record types whose own members are all OPTIONAL the placeholder is a value: such a read is not read-only, see C19)
+        if _all_optional_record(e.t) or e.t.kind == "CHOICE":
+            raise Skip()
+        if pre == 1 and hasattr(v, "values"):
+            list(v.values())
+        else:
+            n_ = len(v.componentType) if e.t.kind in ("SEQ", "SET") else len(v)
+            for i_ in range(n_):
+                v.getComponentByPosition(i_)
     py = native_encoder.encode(v)
     w = native_decoder.decode(py, asn1Spec=mk_type(e.t))
     if not same(e.t, absval(e.t, w), av):
@@ -92,7 +110,7 @@ for e in all_entries():
     if e.has("real") or e.has("any"):
         continue
     # the native form of an OID is its dotted decimal text: arcs are narrowed (digit strings of symbolic ints are slow)
-    OBLIGATIONS.append(entry_obl("native_rt", native_rt, e, narrow=e.id.startswith("oid")))
+    OBLIGATIONS.append(entry_obl("native_rt", native_rt, e, narrow=e.id.startswith("oid"), extra={"pre": I(0, 2) if e.has("constructed") else C(0)}))
     OBLIGATIONS.append(entry_obl("pyval_equiv", pyval_equiv, e, extra={"codec": I(0, 2), "defMode": B, "chunk": I(0, 2)}, narrow=True,
                                  extra_shards=[{"codec": C(0)}, {"codec": C(1), "defMode": C(True), "chunk": C(0)}, {"codec": C(2), "defMode": C(True), "chunk": C(0)}]))
 
